@@ -32,6 +32,7 @@ def shards(tier):
         {"name": "wide.np.jit", "mode": "jit", "backend": "np", "fn": "wide", "n": 1 if q else 20},
         {"name": "wide.np.interp", "mode": "interp", "backend": "np", "fn": "wide", "n": 1 if q else 2, "Ns": [40, 66]},
         {"name": "wide.torch", "mode": "jit", "backend": "torch", "fn": "wide", "n": 1 if q else 4, "Ns": [40, 66]},
+        {"name": "forms.torch", "mode": "jit", "backend": "torch", "fn": "rand", "n": 30 if q else 1000, "big": 8 if q else 300, "forms": 1},
     ]
     if not q:
         for k in range(4):
